@@ -49,7 +49,7 @@ def _cases(draw):
             "obs_imported": draw(st.booleans()),
             # the importing scenario may split the same agents over two tasking engines (each sensor/target pair of the source
             # run stays inside one engine)
-            "two_engines": draw(st.sampled_from([False, False, True]))}
+            "two_engines": draw(st.sampled_from([False, False, "same_split", "split_only_importing", "shared_target"]))}
 
 
 def _agents(t0):
@@ -90,7 +90,11 @@ def importer(c, rec):
         tgts, sens = _agents(t0)
         # ---- phase A: a previous realtime run produces the importer database ----------------------------
         # (with two engines both runs use the same split, so that every stored observation's sensor and target share an engine)
-        engines = [kit.engine(1, sens, tgts)] if not c.get("two_engines") else [kit.engine(1, sens[:1], tgts[:1]), kit.engine(2, sens[1:], tgts[1:])]
+        mode = c.get("two_engines")
+        mode = "same_split" if mode is True else (mode or None)
+        split = [kit.engine(1, sens[:1], tgts[:1]), kit.engine(2, sens[1:], tgts[1:])]
+        shared = [kit.engine(1, sens[:1], tgts), kit.engine(2, sens[1:], tgts[1:])]  # target 2 belongs to both engines
+        engines = [kit.engine(1, sens, tgts)] if mode in (None, "split_only_importing") else (split if mode == "same_split" else shared)
         cfg_a = kit.scenario_config(t0, t0 + timedelta(seconds=(n + 1) * dt), dt, engines, seq_filter={"alpha": 0.5})
         try:
             sc = kit.build(cfg_a, db_file=src)
@@ -142,8 +146,10 @@ def importer(c, rec):
         rec.label("gap" if has_gap else "complete")
         rec.label(f"extras:{min(c['extras'], 1)}")
         # ---- phase B: the importing scenario ---------------------------------------------------------------
-        engines_b = engines
-        rec.label("importing_engines:%d" % len(engines_b))
+        # "split_only_importing": the producing run had one engine, so stored observations pair sensors and targets that the
+        # importing run manages in different engines
+        engines_b = split if mode == "split_only_importing" else engines
+        rec.label("importing_engines:" + (mode or "one"))
         cfg_b = kit.scenario_config(
             t0, t0 + timedelta(seconds=(n + 1) * dt), dt, engines_b, seq_filter={"alpha": 0.5},
             propagation={"target_realtime_propagation": not targets_imported, "sensor_realtime_propagation": not c["sensors_imported"]},
